@@ -103,3 +103,32 @@ func invBounds(c *core.Ctx, r *core.Report) {
 	}
 	r.OK("inv", "done", "", "")
 }
+
+func init() { Registry["INV-nilstack"] = invNilStack }
+
+func invNilStack(c *core.Ctx, r *core.Report) {
+	for _, fn := range c.RepoFunctions() {
+		rel := c.FuncPkgRel(fn)
+		if rel != "analysis/taint" && rel != "analysis/backtrace" {
+			continue
+		}
+		for _, d := range core.UnguardedDerefs(c, fn, func(t string) bool { return strings.Contains(t, "dataflow.NodeTree") }) {
+			fmt.Printf("%s %s deref of %s\n", c.Pos(d.Pos()), c.FuncName(fn), core.DescribeValue(d.X, 0))
+		}
+	}
+	r.OK("inv", "done", "", "")
+}
+
+func init() { Registry["INV-typerec"] = invTypeRec }
+
+func invTypeRec(c *core.Ctx, r *core.Report) {
+	for _, fn := range c.RepoFunctions() {
+		if strings.HasSuffix(c.Fset.Position(fn.Pos()).Filename, "_test.go") {
+			continue
+		}
+		for _, tr := range core.TypeRecursions(c, fn) {
+			fmt.Printf("%s %s step=%s budget=%s seen=%v\n", c.Pos(tr.Call.Pos()), c.FuncName(fn), tr.Step, tr.Budget, tr.HasSeenSet)
+		}
+	}
+	r.OK("inv", "done", "", "")
+}
